@@ -291,6 +291,23 @@ def model_term(o):
         cbool(alert != ""), cbool(bool(e.get("closed"))), cbool(bool(e.get("deliv"))))
 
 
+# a lost datagram is repaired by a retransmission timer: armed when the flight was sent, it fires one flight interval
+# after the loss at the latest (zero transit time in the lab), the second time - with backoff - two intervals later.
+# LOSSPER_BOUND intervals after the loss the handshake has to be complete, whatever harmless records arrive meanwhile.
+LOSSPER_BOUND = 2.5
+
+
+def lossper_late(c):
+    if c["gen"] != "lossper" or c.get("loss_ms", -1) < 0:
+        return None
+    if not c["done"] or c.get("done_ms", -1) < 0:
+        return "never completes (client=%s server=%s)" % (c["cerr"], c["serr"])
+    took = c["done_ms"] - c["loss_ms"]
+    if took > LOSSPER_BOUND * c["ival_ms"]:
+        return "completes %d ms after the loss (flight interval %d ms)" % (took, c["ival_ms"])
+    return None
+
+
 def replay(chk, path):
     """bin/check C08 --replay <file>: re-run the single session of a stored finding (same seed and tier), with a
     per-datagram trace, and say whether it still fails.  Unit-level findings (no session) re-run the whole check."""
@@ -332,6 +349,9 @@ def replay(chk, path):
             why.append("limits: queue %d fragments %d bytes %d" % (c["qmax"], c["fb_count"], c["fb_size"]))
         if c["gen"].startswith("flood-cache") and c["cache1"] - c["cache0"] > 50:
             why.append("handshake cache grew by %d entries" % (c["cache1"] - c["cache0"]))
+        if lossper_late(c):
+            why.append("after the loss of handshake datagram #%d, with a harmless forged record every quarter interval "
+                       "to the %s, the handshake %s" % (c["stage"], c["target"], lossper_late(c)))
     print("REPLAY case %d (%s, stage %s, generator %s): %d datagrams traced; %s" % (
         cid, case.get("variant", cs[0]["variant"] if cs else "?"), case.get("stage", "?"), case.get("gen", "?"), len(traces),
         "FAILS: " + "; ".join(why[:4]) if why else "no monitor fires"), flush=True)
@@ -549,6 +569,46 @@ def run(chk):
                         {"how": "VERIF_C08_ONLY=%d VERIF_C08_TRACE=1" % c["id"], "variant": c["variant"], "stage": c["stage"],
                          "target": c["target"], "datagrams": [o.get("hex") for o in c["obs"] or []], "case": c,
                          "all": [(x["id"], x["variant"], x["stage"], x["target"]) for x in bad[:30]]})
+    # ---- retransmission starved: datagram #k is lost and from then on its sender gets a harmless forged record (one
+    #      lone fragment of a far-future message: fresh ones, or one identical one) every quarter of the flight interval
+    #      for 8 intervals.  The timer armed when the flight was sent must still fire on time.
+    lp = [c for c in cases if c["gen"] == "lossper" and c.get("loss_ms", -1) >= 0]
+    bad = [c for c in lp if lossper_late(c) and not any(obs_violation(o) for o in c["obs"] or [])]
+    if lp:
+        took = sorted((c["done_ms"] - c["loss_ms"]) / max(c["ival_ms"], 1) for c in lp if c.get("done_ms", -1) >= 0)
+        vlib.log("lossper: %d sessions with a loss, completion after the loss in flight intervals: min %.2f median %.2f max %.2f, "
+                 "%d late/never" % (len(lp), took[0] if took else -1, took[len(took) // 2] if took else -1,
+                                    took[-1] if took else -1, len(bad)))
+    # two places own such a timer: the handshake state machines (fsm12 / fsm13 wait) and, before the state machine of a
+    # dual-stack client exists, the version negotiation loop (conn.go negotiateVersionClient); told apart by whether the
+    # target had a state machine when the forged records arrived
+    def lp_phase(c):
+        return "version negotiation" if any(o.get("neg") for o in c["obs"] or []) else "handshake"
+    for phase, site in (("handshake", "internal/handshake fsm12.go / fsm13.go wait (flight retransmission timer)"),
+                        ("version negotiation", "conn.go negotiateVersionClient (ClientHello repeated on a read timeout that "
+                                                "every datagram read re-arms)")):
+        pb = [c for c in bad if lp_phase(c) == phase]
+        if not pb:
+            continue
+        c = sorted(pb, key=lambda c: c["id"])[0]
+        found = True
+        chk.finding(site,
+                    {"monitor": "retransmission starved by periodic harmless records", "phase": phase},
+                    "handshake datagram #%d was lost (variant %s, sent by the %s) and from then on its sender received one harmless "
+                    "unprotected record - a lone fragment of a far-future handshake message, small unused record number - every "
+                    "quarter of the flight interval (%d ms) for 8 intervals: the handshake %s; it has to complete within %.1f "
+                    "intervals of the loss (first retransmission one interval after the flight was sent); every such record "
+                    "re-arms the retransmission timer, the lost flight is not repeated for as long as they keep coming [%d of %d "
+                    "cases with a loss; variants: %s]" % (
+                        c["stage"], c["variant"], c["target"], c["ival_ms"], lossper_late(c), LOSSPER_BOUND, len(pb), len(lp),
+                        ", ".join(sorted({x["variant"] for x in pb}))),
+                    {"how": "VERIF_C08_ONLY=%d VERIF_C08_TRACE=1; drop handshake datagram #stage, then deliver one of `datagrams` "
+                            "to `target` every ival_ms/4 (first one ival_ms/8 after the loss)" % c["id"],
+                     "variant": c["variant"], "stage": c["stage"], "target": c["target"], "ival_ms": c["ival_ms"],
+                     "loss_ms": c["loss_ms"], "done_ms": c["done_ms"],
+                     "datagrams": [o.get("hex") for o in c["obs"] or []], "case": c,
+                     "all": [(x["id"], x["variant"], x["stage"], x["target"], x["done_ms"] - x["loss_ms"] if x["done_ms"] >= 0 else -1)
+                             for x in pb[:40]]})
     # ---- K-C08-2: the slot of a message the peer sends PROTECTED, taken by one unprotected record
     sl = [c for c in cases if c["gen"] == "slot" and c["inj"] > 0]
     bad = [c for c in sl if not (c["done"] and c["echo_cs"] and c["echo_sc"])]
